@@ -498,6 +498,39 @@ def check_osdd_array(case, cc):
                     break
         if base is not None and not bool(np.all(base[..., 1::2] == SENTINEL)):
             cc.dev('array-inplace==elementwise', 'touched-outside-view', 'elements outside the strided view were changed')
+    # in place, arrays that are not native float64: big-endian doubles (what a file reader maps) - same arithmetic, same
+    # bounds - and float32 (frame arrays of single precision channels), where every operation rounds to 24 bits
+    if values:
+        from fractions import Fraction
+        for dt in ('>f8', 'float32'):
+            arr = np.array(values, dtype=np.float64).reshape(shape).astype(dt)
+            src = [float(x) for x in arr.reshape(-1)]
+            if not all(math.isfinite(x) for x in src):
+                continue        # a value beyond the range of single precision
+            try:
+                U.convert_array_inplace(arr, u1, u2)
+            except Exception as err:  # noqa
+                cc.unexpected(err, oracle='array-inplace==elementwise')
+                break
+            if arr.dtype != np.dtype(dt) or arr.shape != shape:
+                cc.dev('array-inplace==elementwise', 'shape-or-dtype', 'in place on %s: now %r %r' % (dt, arr.dtype, arr.shape))
+                break
+            cc.cls('array-inplace-' + dt)
+            for i, (v, g) in enumerate(zip(src, [float(x) for x in arr.reshape(-1)])):
+                w = f(v)
+                b = ref.bound(v, s1, o1, s2, o2)
+                if dt == 'float32':
+                    ratio = abs(Fraction(s1) / Fraction(s2))
+                    b = float(b + Fraction(8, 2 ** 23) * (abs(w) + abs(Fraction(v)) * ratio + abs(Fraction(o1)) * ratio + abs(Fraction(o2))))
+                    big = Fraction(10) ** 37
+                    if not (abs(w) < big and abs(Fraction(v)) * ratio < big and abs(Fraction(v) - Fraction(o1)) * Fraction(s1) < big):
+                        continue    # an intermediate beyond the range of single precision
+                    if w != 0 and abs(w) < Fraction(1, 10 ** 37):
+                        continue    # sub-normal in single precision
+                if not ref.within(g, w, b):
+                    cc.dev('array-inplace==elementwise', 'element:%s:%s' % (dt, kind), 'convert_array_inplace on %s %r -> %r element %d: %r -> %r exact %r bound %g' % (
+                        dt, c1, c2, i, v, g, float(w), b))
+                    break
     n = len(values)
     cc.nt(_nontrivial_pair(table, c1, c2) and n >= 2)
     cc.cls('array-offset-pair', kind == 'with-offset' and n >= 1)
